@@ -24,8 +24,9 @@ A bound method is `obj.m` of a generated class whose first parameter is `s` (pos
 family "share": functions i >= 1 are built with types.FunctionType from the CODE OBJECT of function 0 and get
 their own __defaults__/__kwdefaults__ (sigs[i] has the kinds and names of sigs[0], other defaults) -- the
 situation of `lambda x, i=i` in a loop or closures of one factory.  family "wraps": every sigs[i] is an
-independent function behind the SAME functools.wraps decorator (one wrapper code object, inspect.signature
-follows __wrapped__).  calls[j][3] selects the function.
+independent function behind a functools.wraps decorator (family["wrappers"][i] selects one of four wrappers:
+(*args, **kwargs), (*b, **k_), (d, *a_, **k_), (*b, _flag=1, **k_); inspect.signature follows __wrapped__); with
+"meth" the decorated function is a METHOD of a generated class and the bound method is canonicalised.  calls[j][3] selects the function.
 """
 import functools
 import inspect
@@ -164,6 +165,33 @@ def the_decorator(f):
     return wrapper
 
 
+def decorator_named_star(f):
+    """wrapper whose first local variable is called like the first generated parameter name ('b')"""
+    @functools.wraps(f)
+    def wrapper(*b, **k_):
+        return f(*b, **k_)
+    return wrapper
+
+
+def decorator_first_positional(f):
+    """wrapper (d, *a_, **k_): an explicit first parameter, called like the second generated parameter name"""
+    @functools.wraps(f)
+    def wrapper(d, *a_, **k_):
+        return f(d, *a_, **k_)
+    return wrapper
+
+
+def decorator_kwonly_default(f):
+    """wrapper with a keyword-only default of its own"""
+    @functools.wraps(f)
+    def wrapper(*b, _flag=1, **k_):
+        return f(*b, **k_)
+    return wrapper
+
+
+DECORATORS = [the_decorator, decorator_named_star, decorator_first_positional, decorator_kwonly_default]
+
+
 def _raise_bool(self):
     raise RuntimeError("truth value refused")
 
@@ -219,9 +247,18 @@ def make_all(g):
             c, obj = as_callable(f, meth, g.get("receiver", "plain"))
             out.append((c, obj, src_of(full_sig(sg, meth), "m" if meth else "f").splitlines()[0] + "  # code shared", sg))
     elif fam["kind"] == "wraps":
-        for sg in fam["sigs"]:
-            f, line = plain_function(sg, "f")
-            out.append((the_decorator(f), None, "@wraps " + line, sg))
+        # Python's own binding is that of the WRAPPED function (the wrappers are (*args, **kwargs)-like and may
+        # even intercept names): the oracle calls the wrapped function directly, with the receiver prepended
+        for i, sg in enumerate(fam["sigs"]):
+            deco = DECORATORS[(fam.get("wrappers") or [0] * len(fam["sigs"]))[i]]
+            if meth:
+                f, line = plain_function(full_sig(sg, meth), "m")
+                c, obj = as_callable(deco(f), meth, g.get("receiver", "plain"))
+                out.append((c, obj, "@wraps[%s] %s" % (deco.__name__, line), sg,
+                            (lambda f_, o_: (lambda *a, **k: f_(o_, *a, **k)))(f, obj)))
+            else:
+                f, line = plain_function(sg, "f")
+                out.append((deco(f), None, "@wraps[%s] %s" % (deco.__name__, line), sg, f))
     else:
         raise ValueError(fam["kind"])
     return out
@@ -259,13 +296,15 @@ def run_group(g):
     out = []
     for call in g["calls"]:
         pos, kw, ign = call[0], call[1], call[2]
-        f, obj, line, sig = funcs[call[3] if len(call) > 3 else 0]
+        entry = funcs[call[3] if len(call) > 3 else 0]
+        f, obj, line, sig = entry[:4]
+        real_f = entry[4] if len(entry) > 4 else f
         target = functools.partial(f) if g.get("partial") else f
         pos = [dec(v) for v in pos]
         kwd = dict((k, dec(v)) for k, v in kw)
         r = {}
         try:
-            r["real"] = norm_binding(f(*pos, **kwd), full_sig(sig, meth), obj)
+            r["real"] = norm_binding(real_f(*pos, **kwd), full_sig(sig, meth), obj)
         except TypeError:
             r["real"] = None
         try:
